@@ -574,3 +574,14 @@ for _p in ("C04", "C19", "C07"):
 PLAN["C20"]["jobs"] = PLAN["C20"]["jobs"] + [S("h_driver", drv(6, 0, n=1, cp=3, fk=2, unit=1), ["modes.decision_identical"]),
                                              S("h_driver", drv(6, 1, n=1, cp=3, fk=2, unit=1), ["modes.decision_identical"]),
                                              S("h_mpi", mpi(1, 0, P=2, n=2, tc=3, fk=2), ["mpi.stops_like_the_serial_run"], tiers=T, split=12, timeout_ms=600000)]
+
+FP_DIST_JOBS = [
+    S("h_distribution@24fp", dict(ob=0, bx=3, N=1, crange=1), ["bitprecise.exactly_one_bin"], timeout_ms=120000),
+    S("h_distribution@24fp", dict(ob=0, bx=2, N=1, crange=1, xk=1), ["bitprecise.exactly_one_bin"], timeout_ms=120000),
+    S("h_distribution@24fp", dict(ob=0, bx=2, N=1, crange=1, xk=3), ["bitprecise.exactly_one_bin"], timeout_ms=120000),
+    S("h_distribution@53fp", dict(ob=0, bx=3, N=1, crange=1), ["bitprecise.exactly_one_bin"], tiers=T, timeout_ms=600000),
+    S("h_distribution@24fp", dict(ob=0, bx=4, N=1, crange=1), ["bitprecise.exactly_one_bin"], tiers=T, timeout_ms=600000),
+]
+PLAN["C11"]["jobs"] = PLAN["C11"]["jobs"] + FP_DIST_JOBS
+PLAN["C11"]["assumptions"] = PLAN["C11"]["assumptions"] + ["jobs named @24fp/@53fp: bit-precise IEEE binary32/binary64 model, range [0,1) with 2-4 bins, "
+    "coordinate symbolic: exactly one bin inside the range, none outside, hit bin = bin of the coordinate or a neighbour (the property's edge tolerance)"]
